@@ -759,6 +759,39 @@ def G7_api_contract_pitfalls(repo, clause, scope=ALL_LIB):
     return obs
 
 
+def G13_size_bound_agreement(repo, clause, scope=ALL_LIB):
+    """A lookup table allocated with `n + 1` entries has the valid indices 0..n.  A filter that admits indices into it with the STRICT test `i < n`
+    silently leaves out the index n itself - the off-by-one between a size and a bound (`i <= n` or `i < n + 1` is meant)."""
+    obs = []
+    fns = _scope_fns(repo, scope)
+    n_sites = 0
+    for fn in fns:
+        for a in [x for x in fn.own_nodes() if isinstance(x, ast.Assign) and len(x.targets) == 1 and isinstance(x.targets[0], ast.Name) and isinstance(x.value, ast.Call)
+                  and call_name(x.value) in ("zeros", "ones", "empty", "full") and x.value.args]:
+            size = a.value.args[0]
+            if not (isinstance(size, ast.BinOp) and isinstance(size.op, ast.Add) and const_value(size.right) == 1 and isinstance(size.left, ast.Name)):
+                continue
+            tab, bound = a.targets[0].id, size.left.id
+            # subscripts of the table whose index expression filters by the bound
+            for sub in [x for x in fn.own_nodes() if isinstance(x, ast.Subscript) and isinstance(x.value, ast.Name) and x.value.id == tab]:
+                for cmp_ in [y for y in ast.walk(sub.slice) if isinstance(y, ast.Compare) and len(y.ops) == 1]:
+                    l, r = cmp_.left, cmp_.comparators[0]
+                    strict_below = (isinstance(cmp_.ops[0], ast.Lt) and isinstance(r, ast.Name) and r.id == bound) or \
+                        (isinstance(cmp_.ops[0], ast.Gt) and isinstance(l, ast.Name) and l.id == bound)
+                    incl = (isinstance(cmp_.ops[0], ast.LtE) and isinstance(r, ast.Name) and r.id == bound) or \
+                        (isinstance(cmp_.ops[0], ast.GtE) and isinstance(l, ast.Name) and l.id == bound)
+                    if strict_below or incl:
+                        n_sites += 1
+                        obs.append(Ob("G13", clause, fn, sub, not strict_below,
+                                      "`%s` has %s + 1 entries (valid indices 0..%s); the indices admitted into it are filtered by `%s`%s" % (
+                                          tab, bound, bound, ast.unparse(cmp_), "" if not strict_below else
+                                          ": the index %s itself - a valid entry - is left out (off by one between size and bound)" % bound),
+                                      slot="size-bound:%s:%s" % (fn.qualname, tab), positive="robust" if strict_below else False))
+    obs.append(Ob("G13", clause, fns[0], fns[0].node, True, "%d functions in scope, %d bound-filtered lookups into a table of size bound + 1 inspected" % (len(fns), n_sites),
+                  construct="size/bound inventory", slot="inventory"))
+    return obs
+
+
 def G10_defined_before_use(repo, clause, scope=ALL_LIB):
     """A local name is read only where at least one of its assignments can reach (reaching definitions over the statement CFG).  A read that NO
     assignment reaches - typically after two statements were exchanged or a line was moved above the one that defines its input - raises
